@@ -75,3 +75,25 @@ Proof.
   - specialize (H4 ltac:(lia)). f_equal. f_equal.
     apply Z.div_unique with (r := D - R * (L * 10) + S * 10 - 1 - s * (S * 10)); lia.
 Qed.
+
+(* ---------- non-vacuity example of props/C06.v ---------- *)
+Lemma c06_example_holds :
+  sizes_ok 100 10 10 /\
+  (let l := lcg_bytes 995 7 in
+   read_needle_prod 100 10 (data_shards (dat_of_list l) 100 10 10 995) 0 8 = Some (firstn 8 l) /\
+   map i_large (locate_data 100 10 (10 * 100) 0 8) = [false]) /\
+  (let l := lcg_bytes 1000 9 in
+   write_dat 100 10 (data_shards (dat_of_list l) 100 10 10 1000) 1000 = Some l) /\
+  (let present := [true; false; true; true; false; true; true; true; true; true; false; true; true; false] in
+   length present = 14%nat /\ count_lost present <= 4 /\
+   let len := zlen (znth (all_shards (fun _ => [0; 0; 0; 0]%N) (dat_of_list (lcg_bytes 437 3)) 40 10 10 437) 0 []) in
+   len = 50 /\ len < 1048576) /\
+  (* the closed forms on a .dat with one large row and three small rows *)
+  (let l := lcg_bytes 650 5 in
+   shard_len 40 10 650 = 70 /\
+   map (shard_byte (dat_of_list l) 40 10 650 3) (zrange 0 70) = data_shard (dat_of_list l) 40 10 10 650 3).
+Proof.
+  split.
+  - split; [reflexivity|]. split; [exists 1|exists 10]; split; reflexivity.
+  - vm_compute. repeat split; reflexivity || (intro; discriminate).
+Qed.
